@@ -6,6 +6,7 @@ package props
 import (
 	"fmt"
 	"net"
+	"runtime"
 	"sort"
 	"sync"
 	"time"
@@ -20,6 +21,7 @@ import (
 	"github.com/anacrolix/dht/v2/bep44"
 	"github.com/anacrolix/dht/v2/krpc"
 	peer_store "github.com/anacrolix/dht/v2/peer-store"
+	"github.com/anacrolix/dht/v2/traversal"
 
 	"verifharness/kit"
 	"verifharness/refmodel"
@@ -478,4 +480,32 @@ func (s *Srv) stats(c *kit.Case, pid, what string) (st dht.ServerStats, v *kit.V
 		time.Sleep(50 * time.Millisecond)
 	}
 	return st, kit.Violatef(pid+":api-wedged", "%s: Stats() does not return although every goroutine of the library is blocked (the server lock was left held)", what), false
+}
+
+// runLoopLast installs a schedule perturbation through the VerifBeforeSelect hook: on every pass, a
+// lookup's run loop is held between releasing its lock and blocking until everything else in the
+// node has settled (socket queue drained, every other library goroutine blocked), so that every
+// completion of that pass lands in that window. It is never a verdict by itself: if the node does not
+// settle within 30 ms the loop simply goes on. The returned function removes the hook.
+func runLoopLast(sv *Srv) func() {
+	c03bMu.Lock() // the hook is a package variable of the library
+	traversal.VerifBeforeSelect = func(*traversal.Operation, bool) {
+		deadline := time.Now().Add(30 * time.Millisecond)
+		next := time.Now()
+		for now := time.Now(); now.Before(deadline); now = time.Now() {
+			if !now.Before(next) {
+				if sv.C.Idle() {
+					if ok, _ := sv.C.AllBlocked(); ok {
+						return
+					}
+				}
+				next = now.Add(200 * time.Microsecond)
+			}
+			runtime.Gosched() // (not Sleep: a sleeping goroutine would look blocked to the quiescence barrier)
+		}
+	}
+	return func() {
+		traversal.VerifBeforeSelect = nil
+		c03bMu.Unlock()
+	}
 }
